@@ -312,6 +312,25 @@ func Run(r *core.Run) {
 				return nil
 			})
 			r.Observe("edge", string(b))
+			if st == 'd' && j.sched != nil {
+				// the same deactivate whose signed data names the key's reveal value under the other configured algorithm: whatever the
+				// signed data says, a reveal value that the parser reports for it maps to the preceding recovery commitment
+				rv := ops.Reveal(rec, recCode)
+				b2 := ops.Bytes(ops.Request("deactivate", suffix, rv, ops.Sign(rec, ops.DeactivatePayload(rec, suffix, ops.Reveal(rec, 37-recCode), win)), nil))
+				id2 := id + "/signed-reveal-value-of-the-other-algorithm"
+				wantPrev := wantPrev
+				r.Case(id2, func() *core.Fail {
+					got, err := parser.GetRevealValue(b2)
+					if err != nil {
+						return nil // refused: no linkage is claimed
+					}
+					if c, err := commitment.GetCommitmentFromRevealValue(got); err != nil || c != wantPrev {
+						return &core.Fail{Key: id2, What: fmt.Sprintf("reveal value reported for the deactivate maps to commitment %q (%v) but the predecessor on this chain carried %q", c, err, wantPrev), Detail: map[string]any{"op": string(b2), "chain": j.seq}}
+					}
+					return nil
+				})
+				r.Observe("edge", string(b2))
+			}
 			updC, recC = nextUpdC, nextRecC
 			r.Class("edge-" + string(st))
 		}
